@@ -51,8 +51,9 @@ pub fn gen_case(prop: &str, seed: u64) -> Case {
                 p.w_reopen = 4;
                 p.max_rows_per_insert = 4;
             }
+            let bulk = krng.chance(1, 10);
             let mut g = Gen::new(&mut wrng, p);
-            let mut steps = g.history();
+            let mut steps = if bulk { g.bulk_scenario() } else { g.history() };
             // always end with a reopen followed by statements the reopened database must accept
             steps.push(Step::Reopen);
             let names: Vec<String> = g.model.tables.keys().cloned().collect();
@@ -121,8 +122,9 @@ pub fn gen_case(prop: &str, seed: u64) -> Case {
                 knobs.rowset_size = *krng.pick(&[64usize, 128, 256, 1024]);
             }
             p.pk_first_only = false;
+            let bulk = krng.chance(1, 12);
             let mut g = Gen::new(&mut wrng, p);
-            case.steps = g.history();
+            case.steps = if bulk { g.bulk_scenario() } else { g.history() };
         }
         "C12" => {
             let mut p = Profile::base();
